@@ -29,6 +29,13 @@ def posOf : String → Except String Pos
 
 def faultOf : String → Except String Fault
   | "none" => pure .none
+  -- the peer writes the complete final answer frame and keeps the POST's event stream open (silently or with keep-alive
+  -- comments); where the reader drains the stream (a handler is registered) the peer ends it properly a moment later.
+  -- For the model that is the script of `none` (`answerFully`): without a handler `.answer` is ready as soon as the answer
+  -- was delivered, with one only after `bodyEnd`.  The keep-alive comments and the harness' `helper` flag (stdio: a
+  -- descendant of the child still holds its stderr) are below the model's level of detail: no event of the model
+  -- depends on them, the outcomes must be those of the plain script.
+  | "linger" => pure .none
   | "close" => pure .close
   | "reset" => pure .reset
   | "stall" => pure .stall
